@@ -373,7 +373,10 @@ func cmdCheck(args []string) int {
 			m["count"] = m["count"].(int) + 1
 			m["secs"] = m["secs"].(float64) + r.Secs
 		} else if r.Status == "error" {
+			// the generator produced a query the solvers reject (code outside the modelled subset): the obligation is
+			// not discharged on this tree, which is reported like any other undecided obligation, plus a note
 			machinery = append(machinery, fmt.Sprintf("solver rejected the query for %s: %s", r.Name, firstLines(r.Output, 2)))
+			viol = append(viol, r)
 		} else {
 			// a failing obligation that a listed (unfixed) finding of this property names, and whose witness
 			// still fails on the real code, is that finding - not a new violation
